@@ -4,11 +4,217 @@ package checks
 
 import (
 	"encoding/json"
+	"fmt"
+	"sort"
+	"strings"
 
+	"github.com/jotaen/klog/klog"
+	"github.com/jotaen/klog/klog/parser"
+	"github.com/jotaen/klog/klog/parser/txt"
+	"github.com/jotaen/klog/klog/verifrt/vrt"
+
+	"klogverif/explore"
 	"klogverif/fw"
 )
 
-func c07SchedUnits(fw.Tier) int                     { return 0 }
-func c07SchedUnit(c *fw.Ctx, unit int)              {}
-func c07SchedReplay(c *fw.Ctx, raw json.RawMessage) {}
-func c07Finalize(r *fw.Result)                      {}
+// Schedule-exhaustive leg of C07: depth-first search over ALL interleavings of the parallel
+// parser's goroutines (workers, closer, collector) on the instrumented build.
+
+type c07Scenario struct {
+	Text  string
+	N     int
+	Bound int // preemption bound; -1 = unbounded (with state-key pruning)
+}
+
+// Inputs whose batch results are pairwise distinct with non-empty head/middle/tail parts, so that
+// a swapped, lost or duplicated result is observable.
+func c07SchedTexts() []string {
+	rec := func(d int, body string) string { return fmt.Sprintf("2020-01-%02d\n%s", d, body) }
+	long := ""
+	for d := 1; d <= 12; d++ {
+		long += rec(d, fmt.Sprintf("    %dh\n\n", d))
+	}
+	bad := ""
+	for d := 1; d <= 9; d++ {
+		if d%2 == 0 {
+			bad += fmt.Sprintf("2020-01-%02d\n     %dh\n\n", d, d) // wrong indentation: an error per even record
+		} else {
+			bad += rec(d, fmt.Sprintf("    %dh\n\n", d))
+		}
+	}
+	return []string{
+		long,
+		bad,
+		strings.ReplaceAll(long, "\n", "\r\n"),
+		"2020-01-01\n    1h é中\n\n\n2020-01-02\nsummary\n\t2h\n\n2020-01-03\n  3h\n   \n2020-01-04\n    4h\n        more\n2020-01-05\n",
+		"x\n\ny\n\n2020-01-01\n\nz\n\n2020-01-02\n    ?\n\n\n2020-01-03",
+	}
+}
+
+func c07Scenarios(tier fw.Tier) []c07Scenario {
+	var out []c07Scenario
+	for i, t := range c07SchedTexts() {
+		out = append(out, c07Scenario{t, 2, -1}, c07Scenario{t, 3, -1})
+		if tier == fw.Thorough {
+			out = append(out, c07Scenario{t, 4, -1}, c07Scenario{t, 5, 2}, c07Scenario{t, 6, 1})
+		} else if i < 2 {
+			out = append(out, c07Scenario{t, 4, 1}, c07Scenario{t, 5, 0})
+		}
+	}
+	return out
+}
+
+func c07SchedUnits(t fw.Tier) int { return len(c07Scenarios(t)) }
+
+type c07SchedCase struct {
+	Fam     string `json:"fam"`
+	Text    fw.Txt `json:"text"`
+	N       int    `json:"workers"`
+	Choices []int  `json:"choices"`
+}
+
+func instrumented() bool {
+	// the overlay is active iff klog's parallel parser goes through vrt: probe with a tiny execution
+	s, _ := vrt.Execute(func(string, int, bool) int { return 0 }, func() {
+		parser.NewParallelParser(2).Parse("2020-01-01\n\n2020-01-02\n")
+	})
+	return len(s.Trace) > 0
+}
+
+// c07RunOne performs one controlled execution and checks it. It returns the violation (sig, detail) if any.
+func c07RunOne(text string, n int, rec *explore.Recorder, want string, hook func(string, int) bool) (s *vrt.Sched, sig, detail string) {
+	var rs []klog.Record
+	var bs []txt.Block
+	var errs []txt.Error
+	s, pv := explore.RunSched(rec, hook, func() { rs, bs, errs = parser.NewParallelParser(n).Parse(text) })
+	switch {
+	case s.Deadlock() != nil:
+		return s, "sched:deadlock", fmt.Sprintf("deadlock: blocked %v\ntrace: %v", s.Deadlock().Blocked, s.Trace)
+	case pv != nil:
+		return s, "sched:panic-main", fmt.Sprintf("the collecting goroutine panicked: %v\ntrace: %v", pv, s.Trace)
+	case len(s.Panics) > 0:
+		return s, "sched:panic-thread", fmt.Sprintf("a worker/closer goroutine panicked (the process would crash): %v\ntrace: %v", s.Panics, s.Trace)
+	case s.Pruned:
+		return s, "", ""
+	}
+	if got := dumpParse(rs, bs, errs); got != want {
+		return s, "sched:differs", fmt.Sprintf("under this schedule the parallel parser (n=%d) differs from the serial parser.\nserial:\n%s\nparallel:\n%s\ntrace: %v", n, want, got, s.Trace)
+	}
+	return s, "", ""
+}
+
+func c07SchedUnit(c *fw.Ctx, unit int) {
+	sc := c07Scenarios(c.Tier)[unit]
+	if !instrumented() {
+		c.Cap("the build is not instrumented (goinstr fallback): schedules are not explored")
+		return
+	}
+	rs, bs, errs, _, _, _ := klogParse(sc.Text)
+	want := dumpParse(rs, bs, errs)
+	visited := map[string]bool{}
+	arrivals := map[string]bool{}
+	var prefixLen int
+	var curRec *explore.Recorder
+	hook := func(key string, point int) bool {
+		if point < prefixLen {
+			return false
+		}
+		if sc.Bound >= 0 {
+			// bounded search: a state is only the same if the remaining preemption budget is the same
+			key += fmt.Sprintf("|dev=%d", curRec.Deviations())
+		}
+		if visited[key] {
+			return true
+		}
+		visited[key] = true
+		return false
+	}
+	maxExec := 400000
+	if c.Tier == fw.Thorough {
+		maxExec = 4000000
+	}
+	st, err := explore.DFS(sc.Bound, maxExec, func(rec *explore.Recorder) bool {
+		prefixLen = len(rec.Prefix)
+		curRec = rec
+		s, sig, detail := c07RunOne(sc.Text, sc.N, rec, want, hook)
+		c.Eval(1)
+		c.Count("schedule_executions", 1)
+		c.Count("transitions", int64(len(s.Trace)))
+		if s.Pruned {
+			c.Count("schedule_pruned", 1)
+			return !c.Expired()
+		}
+		if s.Leaked > 0 {
+			c.Count("schedule_leaked_threads", int64(s.Leaked))
+		}
+		ord := fmt.Sprint(s.Arrivals)
+		arrivals[ord] = true
+		c.Nontrivial(fw.HashMix(fw.HashString(fmt.Sprint(rec.Choices())), uint64(unit)))
+		if sig != "" {
+			c.Violation(sig, c07SchedCase{"sched", fw.Txt(sc.Text), sc.N, rec.Choices()}, detail)
+			return false
+		}
+		c.Sample(func() any {
+			return map[string]any{"workers": sc.N, "choices": rec.Choices(), "trace": s.Trace, "arrival_order": s.Arrivals}
+		})
+		return !c.Expired()
+	})
+	if err != nil {
+		harnessFatal("schedule exploration: %v", err)
+	}
+	c.Count("states", int64(len(visited)))
+	c.Max("schedule_points", int64(st.MaxPoints))
+	if st.Capped {
+		c.Cap(fmt.Sprintf("schedule search for n=%d capped at %d executions", sc.N, maxExec))
+	}
+	var ords []string
+	for o := range arrivals {
+		ords = append(ords, o)
+	}
+	sort.Strings(ords)
+	c.SetAdd(fmt.Sprintf("arrival_orders_n%d_bound%d", sc.N, sc.Bound), fmt.Sprintf("u%d:%d", unit, len(ords)))
+	if sc.Bound < 0 && !st.Capped {
+		fact := 1
+		for i := 2; i <= sc.N; i++ {
+			fact *= i
+		}
+		if len(ords) != fact {
+			// vacuity guard: the unbounded search must deliver the results in every possible order
+			c.Violation("finalize:arrival-orders", c07SchedCase{"sched", fw.Txt(sc.Text), sc.N, nil},
+				fmt.Sprintf("the unbounded schedule search for %d workers observed %d distinct delivery orders, expected %d! = %d", sc.N, len(ords), sc.N, fact))
+		}
+	}
+	c.Outcome(fmt.Sprintf("sched-n%d-bound%d", sc.N, sc.Bound))
+}
+
+func c07SchedReplay(c *fw.Ctx, raw json.RawMessage) {
+	var cs c07SchedCase
+	if json.Unmarshal(raw, &cs) != nil {
+		return
+	}
+	text := string(cs.Text)
+	rs, bs, errs, _, _, _ := klogParse(text)
+	want := dumpParse(rs, bs, errs)
+	var first string
+	for i := 0; i < 2; i++ { // the same schedule twice: identical observations
+		rec := &explore.Recorder{Prefix: cs.Choices}
+		s, sig, detail := c07RunOne(text, cs.N, rec, want, nil)
+		obs := fmt.Sprint(s.Trace, sig)
+		if i == 0 {
+			first = obs
+			if sig != "" {
+				c.Violation(sig, cs, detail)
+			}
+		} else if obs != first {
+			c.Note("replay of the same schedule gave different observations")
+		}
+	}
+}
+
+func c07Finalize(r *fw.Result) {
+	if r.Extra == nil {
+		r.Extra = map[string]any{}
+	}
+	// model_checking keys: every execution runs on the implementation itself
+	r.Extra["traces_validated_against_impl"] = r.Counters["schedule_executions"]
+}
